@@ -7,6 +7,7 @@ import (
 	"pgregory.net/rapid"
 
 	"verif/harness/internal/gen"
+	"verif/harness/internal/model"
 	"verif/harness/internal/runlog"
 )
 
@@ -155,6 +156,31 @@ func drawJoins(t *rapid.T, n int) []bool {
 	return rapid.SliceOfN(rapid.Bool(), n, n).Draw(t, "joins")
 }
 
+// joins draws which edges of the path are written dotted. Next to an empty
+// name an edge is kept nested if the separator overlaps itself ("a::::c"
+// under "::" is not clear, see OptSet.clear).
+func (x sp) joins(path []string) []bool {
+	js := drawJoins(x.t, len(path)-1)
+	if selfOverlap(x.sep) {
+		for i := range js {
+			if path[i] == "" || path[i+1] == "" {
+				js[i] = false
+			}
+		}
+	}
+	return js
+}
+
+func (x sp) clearAll(gs []string) bool {
+	o := OptSet{Sep: x.sep}
+	for _, g := range gs {
+		if !o.clear(g) {
+			return false
+		}
+	}
+	return true
+}
+
 // fits reports whether e can be added to the spelled object root without
 // touching an existing key.
 func fits(root *gen.Tree, gs []string) bool {
@@ -195,7 +221,7 @@ func (x sp) spellObj(o *gen.Tree, plant func(es []entry) (entry, bool)) *gen.Tre
 		x.collectVal(o.Vals[i], []string{k}, &es)
 	}
 	for i := range es {
-		es[i].joins = drawJoins(t, len(es[i].path)-1)
+		es[i].joins = x.joins(es[i].path)
 	}
 	root := gen.Obj()
 	root.R = o.R
@@ -228,7 +254,7 @@ func (x sp) spellObj(o *gen.Tree, plant func(es []entry) (entry, bool)) *gen.Tre
 			for i := range e.joins {
 				e.joins[i] = bits>>i&1 == 1
 			}
-			if gs := e.groups(x.sep); fits(root, gs) {
+			if gs := e.groups(x.sep); fits(root, gs) && x.clearAll(gs) {
 				x.insert(root, gs, e.val)
 				return
 			}
@@ -266,7 +292,45 @@ func primLeaves(o *gen.Tree) [][]string {
 	return out
 }
 
-var plantKinds = []string{"prim/prim", "container over prim", "prim over container", "container/container overlapping", "container/container disjoint", "nil over anything"}
+var plantKinds = []string{"prim/prim", "container over prim", "prim over container", "container/container overlapping", "container/container disjoint", "nil over anything", "prim/prim, a list index of the path in another literal (+1, 01, 0x1, 0b1, 0o1, -0)"}
+
+// respellIndex returns the path with one of its integer-literal segments
+// written as another literal of the same number (DESIGN 3 (vii): strconv base
+// 0), if it has one.
+func respellIndex(t *rapid.T, l []string, sep string) ([]string, bool) {
+	var at []int
+	for i, s := range l {
+		if _, ok := model.IndexOf(s, 1<<40); ok {
+			at = append(at, i)
+		}
+	}
+	if len(at) == 0 {
+		return nil, false
+	}
+	i := rapid.SampledFrom(at).Draw(t, "respell-at")
+	n, _ := model.IndexOf(l[i], 1<<40)
+	forms := []string{"+" + strconv.Itoa(n), "0x" + strconv.FormatInt(int64(n), 16), "0" + strconv.FormatInt(int64(n), 8), "0b" + strconv.FormatInt(int64(n), 2), "0o" + strconv.FormatInt(int64(n), 8), "0X" + strings.ToUpper(strconv.FormatInt(int64(n), 16))}
+	if n == 0 {
+		forms = append(forms, "-0", "00")
+	}
+	if l[i] != strconv.Itoa(n) {
+		forms = append(forms, strconv.Itoa(n))
+	}
+	if sep != "" {
+		kept := forms[:0]
+		for _, f := range forms {
+			if !strings.Contains(f, sep) {
+				kept = append(kept, f)
+			}
+		}
+		if forms = kept; len(forms) == 0 {
+			return nil, false
+		}
+	}
+	out := append([]string(nil), l...)
+	out[i] = rapid.SampledFrom(forms).Draw(t, "respell")
+	return out, out[i] != l[i]
+}
 
 const plantSameKey = "same key twice in one object (struct fields / inline members)"
 
@@ -277,11 +341,10 @@ func otherPrim(t *rapid.T) *gen.Tree {
 
 // nestUnder builds {rel[0]: {rel[1]: ... v}}, optionally with a dotted cut.
 func (x sp) nestUnder(rel []string, v *gen.Tree) *gen.Tree {
-	t := x.t
 	if len(rel) == 0 {
 		return v
 	}
-	e := entry{path: rel, val: v, joins: drawJoins(t, len(rel)-1)}
+	e := entry{path: rel, val: v, joins: x.joins(rel)}
 	root := gen.Obj()
 	root.R = x.drawContRepr()
 	x.insert(root, e.groups(x.sep), v)
@@ -303,6 +366,11 @@ func (x sp) genNested(cfg *gen.TreeCfg, depth int) *gen.Tree {
 		switch ch := rapid.IntRange(0, 11).Draw(t, "child"); {
 		case depth > 0 && ch < 6:
 			v = x.genNested(cfg, depth-1)
+			if k == "" && rapid.Bool().Draw(t, "empty-again") {
+				// the empty name below the empty name: "a..", "..", "." when written dotted
+				v = gen.Obj().Put("", v)
+				v.R = x.drawContRepr()
+			}
 		case depth > 0 && ch < 8:
 			v = gen.GenList(t, cfg, depth-1)
 		case ch == 11:
@@ -369,7 +437,7 @@ func genFlat(t *rapid.T, plant bool) FlatCase {
 
 func genFlatWith(t *rapid.T, o OptSet, plant, structs bool) FlatCase {
 	c := FlatCase{O: o, Scheme: rapid.IntRange(0, nSchemes-1).Draw(t, "scheme")}
-	cfg := &gen.TreeCfg{Depth: 3, Width: 3, Keys: keysFor(c.O, flatKeys), Strings: gen.HostileStrings, Reprs: true}
+	cfg := &gen.TreeCfg{Depth: 3, Width: 3, Keys: append(keysFor(c.O, flatKeys), drawOdd(t, c.O)...), Strings: gen.HostileStrings, Reprs: true}
 	if runlog.Thorough() {
 		cfg.Depth, cfg.Width = 4, 4
 	}
@@ -377,7 +445,7 @@ func genFlatWith(t *rapid.T, o OptSet, plant, structs bool) FlatCase {
 	tree := x.genNested(cfg, cfg.Depth)
 	enrich(t, tree)
 	if plant && rapid.IntRange(0, 2).Draw(t, "deepen") == 0 {
-		tree = gen.Obj().Put(rapid.SampledFrom([]string{"a", "b", "w"}).Draw(t, "wrapkey"), tree)
+		tree = gen.Obj().Put(rapid.SampledFrom([]string{"a", "b", "w", ""}).Draw(t, "wrapkey"), tree)
 	}
 	same := plant && rapid.IntRange(0, 5).Draw(t, "plant-same") == 0
 	var planter func(es []entry) (entry, bool)
@@ -399,11 +467,18 @@ func genFlatWith(t *rapid.T, o OptSet, plant, structs bool) FlatCase {
 				}
 			}
 			var val *gen.Tree
+			if kind == 6 {
+				if l2, ok := respellIndex(t, l, c.O.Sep); ok {
+					l, cut = l2, len(l2)
+				} else {
+					kind = 0
+				}
+			}
 			switch kind {
-			case 0:
+			case 0, 6:
 				val = otherPrim(t)
 			case 1:
-				k := rapid.SampledFrom([]string{"a", "b", "e", "0"}).Draw(t, "newkey")
+				k := rapid.SampledFrom([]string{"a", "b", "e", "0", ""}).Draw(t, "newkey")
 				val = x.nestUnder([]string{k}, otherPrim(t))
 				if rapid.IntRange(0, 3).Draw(t, "aslist") == 0 {
 					val = gen.List(otherPrim(t))
@@ -416,7 +491,7 @@ func genFlatWith(t *rapid.T, o OptSet, plant, structs bool) FlatCase {
 					val.Put("e", otherPrim(t))
 				}
 			case 4:
-				k := rapid.SampledFrom([]string{"e", "f", "e" + c.O.Sep + "f", "e" + c.O.Sep + "0"}).Draw(t, "freshkey")
+				k := rapid.SampledFrom([]string{"e", "f", "e" + c.O.Sep + "f", "e" + c.O.Sep + "0", "e" + c.O.Sep, c.O.Sep + "e"}).Draw(t, "freshkey")
 				val = gen.Obj().Put(k, otherPrim(t))
 				val.R = x.drawContRepr()
 			case 5:
@@ -429,7 +504,7 @@ func genFlatWith(t *rapid.T, o OptSet, plant, structs bool) FlatCase {
 			}
 			c.Planted = plantKinds[kind]
 			p := l[:cut]
-			return entry{path: p, val: val, joins: drawJoins(t, len(p)-1)}, true
+			return entry{path: p, val: val, joins: x.joins(p)}, true
 		}
 	}
 	c.F = x.spellObj(tree, planter)
